@@ -479,6 +479,9 @@ Proof.
   - contradiction.
 Qed.
 
+Section Gen.
+Variables keep rej : bool.
+
 (* ------------------------------------------------------------------------------------------ *)
 (* One event preserves Inv (for a quiet event)                                                 *)
 (* ------------------------------------------------------------------------------------------ *)
@@ -550,6 +553,60 @@ Qed.
 Ltac proj := cbn [cmds st holding rclaims has_hash creator attached set_has_hash set_rclaims set_meta
   set_holding set_st set_cmds set_sig set_attached set_creator].
 
+Lemma in_flight_true : forall x, in_flight x = true -> st x = Running \/ st x = Checking.
+Proof.
+  intros x H. unfold in_flight in H. apply orb_prop in H.
+  destruct H as [H|H]; apply sstate_eqb_eq in H; [left|right]; exact H.
+Qed.
+
+Lemma in_flight_false : forall x, in_flight x = false -> st x <> Running /\ st x <> Checking.
+Proof.
+  intros x H. unfold in_flight in H. apply orb_false_elim in H. destruct H as [H1 H2].
+  split; intro E; rewrite E in *; vm_compute in H1, H2; discriminate.
+Qed.
+
+Lemma in_flight_core : forall x y, core x = core y -> in_flight x = in_flight y.
+Proof. intros x y H. apply core_inv in H. destruct H as [H _]. unfold in_flight. rewrite H. reflexivity. Qed.
+
+(* the repaired shape: the row of a step whose job is in flight is left as it is *)
+Lemma full_row_kept : forall cl nd y, in_flight y = true -> core (recycle_full_row true cl nd y) = core y.
+Proof.
+  intros cl nd y H. unfold recycle_full_row. rewrite H. cbn [andb negb]. rewrite !andb_false_r.
+  apply in_flight_true in H.
+  assert (E : sstate_eqb (st y) Failed = false) by (destruct H as [H|H]; rewrite H; reflexivity).
+  rewrite E, andb_false_r. reflexivity.
+Qed.
+
+Lemma partial_row_kept : forall g cl nd y, in_flight y = true -> core (recycle_partial_row true g cl nd y) = core y.
+Proof. intros g cl nd y H. unfold recycle_partial_row. rewrite H. reflexivity. Qed.
+
+(* both shapes: a row whose job is not in flight is overwritten *)
+Lemma full_row_reset : forall kp cl nd y, in_flight y = false ->
+  recycle_full_row kp cl nd y =
+  set_meta (false, nd, false) (set_rclaims cl
+    (if sstate_eqb (st (set_holding 0 y)) Failed then set_state_tr Pending (set_holding 0 y) else set_holding 0 y)).
+Proof.
+  intros kp cl nd y H. unfold recycle_full_row. rewrite H, andb_false_r.
+  unfold recycle_zeroes_holding, recycle_failed_to_pending, recycle_replaces_claims. reflexivity.
+Qed.
+
+Lemma partial_row_reset : forall kp g cl nd y, in_flight y = false ->
+  recycle_partial_row kp g cl nd y =
+  set_meta (false, nd, false) (set_rclaims cl (set_sig (add_out g (sig y)) (set_holding 0 (set_st (of_code partial_recycle_state) y)))).
+Proof. intros kp g cl nd y H. unfold recycle_partial_row. rewrite H, andb_false_r. reflexivity. Qed.
+
+Lemma full_row_cmds : forall kp cl nd y, cmds (recycle_full_row kp cl nd y) = cmds y.
+Proof.
+  intros kp cl nd y. unfold recycle_full_row. cbv zeta.
+  destruct (recycle_zeroes_holding && negb (kp && in_flight y));
+    destruct (recycle_replaces_claims && negb (kp && in_flight y)); proj;
+    match goal with |- context [if ?c then _ else _] => destruct c end; proj; try reflexivity;
+    match goal with |- cmds (set_state_tr ?a ?b) = _ => destruct (set_state_tr_fields a b) as [_ [_ [F3 _]]]; exact F3 end.
+Qed.
+
+Lemma partial_row_cmds : forall kp g cl nd y, cmds (recycle_partial_row kp g cl nd y) = cmds y.
+Proof. intros kp g cl nd y. unfold recycle_partial_row. destruct (kp && in_flight y); reflexivity. Qed.
+
 Lemma recycle_row_facts : forall cl nd y, cmds y = [] -> st y <> Running -> NoDup (map fst cl) ->
   let z := set_meta (false, nd, false) (set_rclaims cl
              (if sstate_eqb (st (set_holding 0 y)) Failed then set_state_tr Pending (set_holding 0 y)
@@ -569,9 +626,9 @@ Proof.
     + intro r. unfold row_cmd_used. proj. rewrite Hc. reflexivity.
 Qed.
 
-Lemma Inv_step : forall s e, Inv s -> quiet_event s e -> Inv (apply s e).
+Lemma Inv_step : forall s e, Inv s -> (keep || rej = true \/ quiet_event s e) -> Inv (apply_gen keep rej s e).
 Proof.
-  intros s e HI Hq. unfold apply. destruct (step s e) as [s'|] eqn:Es; [|exact HI].
+  intros s e HI Hq. unfold apply_gen. destruct (step_gen keep rej s e) as [s'|] eqn:Es; [|exact HI].
   rewrite (sys_eta s) in HI. destruct e as [m|i|i|i k o|i c|p l g cl nd|i k|i k|i]; simpl in Es.
   - (* ESetMeta *)
     inversion Es; subst; clear Es. unfold with_db. eapply Inv_ext; [|exact HI].
@@ -659,14 +716,39 @@ Proof.
     destruct (nth_error (db s) p) as [px|] eqn:Ep; [|discriminate].
     destruct (valid_claims cl) eqn:Ev; simpl in Es; [|discriminate].
     pose proof (valid_claims_NoDup cl Ev) as Hnd.
-    simpl in Hq. destruct (find_label l (db s)) as [i|] eqn:Ef.
+    destruct (find_label l (db s)) as [i|] eqn:Ef.
     + destruct (nth_error (db s) i) as [x|] eqn:En; [|discriminate].
       destruct (attached x); [discriminate|]. destruct (Nat.eqb i p); [discriminate|].
+      destruct (rej && in_flight x) eqn:Erj; [discriminate|].
       pose proof HI as [HK [HV HR]]. simpl in HK, HV.
       pose proof (Forall_nth _ _ _ _ HK En) as HKx.
-      assert (Hnr : st x <> Running).
-      { destruct Hq as [Hq _]. unfold Krow in HKx. rewrite Hq in HKx. tauto. }
-      destruct (Krow_not_running x HKx Hnr) as [Hc Hh].
+      (* the recycled row: same core as x in the table that the bulk operations produced *)
+      assert (Hrow : forall d2 f, map core d2 = map core (db s) ->
+                (forall y, core y = core x -> in_flight y = true -> keep = true -> core (f y) = core y) ->
+                (forall y, core y = core x -> in_flight y = false ->
+                   Krow (f y) /\ Vrow (f y) /\ forall r, row_cmd_used r (f y) = 0%N) ->
+                Inv (mkSys (upd d2 i f) (avail s) (threshold s))).
+      { intros d2 f H2 Hkept Hreset.
+        destruct (core_nth _ _ _ _ H2 En) as [x2 [En2 Hx2]].
+        assert (HI2 : Inv (mkSys d2 (avail s) (threshold s))) by (eapply Inv_ext; eassumption).
+        pose proof HI2 as [HK2 [HV2 _]]. simpl in HK2, HV2.
+        pose proof (Forall_nth _ _ _ _ HK2 En2) as HKx2. pose proof (Forall_nth _ _ _ _ HV2 En2) as HVx2.
+        destruct (in_flight x2) eqn:Ei2.
+        - (* in flight: only the repaired shape gets here *)
+          assert (Hkeep : keep = true).
+          { destruct Hq as [Hq|Hq].
+            - rewrite (in_flight_core _ _ Hx2) in Ei2. rewrite Ei2, andb_true_r in Erj. rewrite Erj, orb_false_r in Hq. exact Hq.
+            - exfalso. simpl in Hq. rewrite Ef, En in Hq. destruct Hq as [Hq1 Hq2].
+              rewrite (in_flight_core _ _ Hx2) in Ei2. apply in_flight_true in Ei2. destruct Ei2 as [Ei2|Ei2]; [|contradiction].
+              unfold Krow in HKx. rewrite Hq1 in HKx. tauto. }
+          pose proof (Hkept x2 Hx2 Ei2 Hkeep) as Hc2.
+          apply (Inv_local _ _ _ _ _ x2 HI2 En2).
+          + eapply Krow_core; [symmetry; exact Hc2|exact HKx2].
+          + eapply Vrow_core; [symmetry; exact Hc2|exact HVx2].
+          + intro r. rewrite (row_cmd_used_core r _ _ Hc2). lia.
+        - destruct (Hreset x2 Hx2 Ei2) as [R1 [R2 R3]].
+          apply (Inv_local _ _ _ _ _ x2 HI2 En2); [exact R1|exact R2|].
+          intro r. rewrite (R3 r). lia. }
       destruct (outs_match (sig x) g).
       * (* full recycle *)
         unfold recycle_full in Es. destruct (lose_product (db s) x) as [d0|] eqn:El; [|discriminate].
@@ -675,19 +757,15 @@ Proof.
         set (d1 := upd d0 i (fun y => set_attached (attached px) (set_creator (Some p) y))).
         assert (H1 : map core d1 = map core (db s)).
         { unfold d1. rewrite map_upd_ext; [exact H0|intros; reflexivity]. }
-        set (d2 := set_attached_in (descendants (length d1) d1 [i]) (attached px) d1).
-        assert (H2 : map core d2 = map core (db s)) by (unfold d2; rewrite set_attached_in_core; exact H1).
-        destruct (core_nth _ _ _ _ H2 En) as [x2 [En2 Hx2]].
-        assert (HI2 : Inv (mkSys d2 (avail s) (threshold s))) by (eapply Inv_ext; eassumption).
-        apply core_inv in Hx2. destruct Hx2 as [Y1 [Y2 [Y3 Y4]]].
-        assert (Hc2 : cmds x2 = []) by (rewrite Y4; exact Hc).
-        assert (Hs2 : st x2 <> Running) by (rewrite Y1; exact Hnr).
-        destruct (recycle_row_facts cl nd x2 Hc2 Hs2 Hnd) as [R1 [R2 R3]].
-        apply (Inv_local _ _ _ _ _ x2 HI2 En2).
-        -- exact R1.
-        -- exact R2.
-        -- intro r. pose proof (R3 r) as R3r.
-           match goal with |- (?a <= _)%N => replace a with 0%N by (symmetry; exact R3r) end. lia.
+        apply Hrow.
+        -- rewrite set_attached_in_core. exact H1.
+        -- intros y _ Hy Hk. rewrite Hk. apply full_row_kept. exact Hy.
+        -- intros y Hy Hf. rewrite (full_row_reset keep cl nd y Hf).
+           apply core_inv in Hy. destruct Hy as [Y1 [Y2 [Y3 Y4]]].
+           destruct (in_flight_false y Hf) as [Hnr _].
+           assert (Hnrx : st x <> Running) by (rewrite <- Y1; exact Hnr).
+           destruct (Krow_not_running x HKx Hnrx) as [Hc Hh].
+           apply recycle_row_facts; [rewrite Y4; exact Hc|exact Hnr|exact Hnd].
       * (* partial recycle *)
         unfold recycle_partial in Es. destruct (lose_product (db s) x) as [d0|] eqn:El; [|discriminate].
         inversion Es; subst; clear Es. unfold with_db.
@@ -695,14 +773,18 @@ Proof.
         set (d1 := upd d0 i (fun y => set_attached (attached px) (set_creator (Some p) y))).
         assert (H1 : map core d1 = map core (db s)).
         { unfold d1. rewrite map_upd_ext; [exact H0|intros; reflexivity]. }
-        assert (H2 : map core (detach_created d1 i) = map core (db s)) by (rewrite detach_created_core; exact H1).
-        destruct (core_nth _ _ _ _ H2 En) as [x2 [En2 Hx2]].
-        assert (HI2 : Inv (mkSys (detach_created d1 i) (avail s) (threshold s))) by (eapply Inv_ext; eassumption).
-        apply core_inv in Hx2. destruct Hx2 as [Y1 [Y2 [Y3 Y4]]].
-        apply (Inv_local _ _ _ _ _ x2 HI2 En2).
-        -- apply Krow_nil; proj; [rewrite Y4; exact Hc|rewrite partial_state_pending; discriminate|reflexivity].
-        -- unfold Vrow. proj. exact Hnd.
-        -- intro r. unfold row_cmd_used. proj. lia.
+        apply Hrow.
+        -- rewrite detach_created_core. exact H1.
+        -- intros y _ Hy Hk. rewrite Hk. apply partial_row_kept. exact Hy.
+        -- intros y Hy Hf. rewrite (partial_row_reset keep g cl nd y Hf).
+           apply core_inv in Hy. destruct Hy as [Y1 [Y2 [Y3 Y4]]].
+           destruct (in_flight_false y Hf) as [Hnr _].
+           assert (Hnrx : st x <> Running) by (rewrite <- Y1; exact Hnr).
+           destruct (Krow_not_running x HKx Hnrx) as [Hc Hh].
+           repeat split.
+           ++ apply Krow_nil; proj; [rewrite Y4; exact Hc|rewrite partial_state_pending; discriminate|reflexivity].
+           ++ unfold Vrow. proj. exact Hnd.
+           ++ intro r. unfold row_cmd_used. proj. rewrite Y4, Hc. reflexivity.
     + (* new row *)
       inversion Es; subst; clear Es. unfold with_db. destruct HI as [HK [HV HR]]. simpl in *.
       repeat split; simpl.
@@ -747,7 +829,7 @@ Proof.
       * intro r. destruct (C_state_change r Pending false x) as [_ C2]. rewrite C2. lia.
 Qed.
 
-Lemma step_avail : forall s e s', step s e = Some s' -> avail s' = avail s /\ threshold s' = threshold s.
+Lemma step_avail : forall s e s', step_gen keep rej s e = Some s' -> avail s' = avail s /\ threshold s' = threshold s.
 Proof.
   intros s e s' H. destruct e; simpl in H;
     repeat match type of H with
@@ -755,28 +837,30 @@ Proof.
            end; inversion H; subst; split; reflexivity.
 Qed.
 
-Lemma apply_avail : forall s e, avail (apply s e) = avail s.
+Lemma apply_avail : forall s e, avail (apply_gen keep rej s e) = avail s.
 Proof.
-  intros s e. unfold apply. destruct (step s e) eqn:E; [|reflexivity]. apply step_avail in E. tauto.
+  intros s e. unfold apply_gen. destruct (step_gen keep rej s e) eqn:E; [|reflexivity]. apply step_avail in E. tauto.
 Qed.
 
-Lemma run_avail : forall evs s, avail (run s evs) = avail s.
+Lemma run_avail : forall evs s, avail (run_gen keep rej s evs) = avail s.
 Proof.
   induction evs as [|e r IH]; intro s; [reflexivity|].
-  change (run s (e :: r)) with (run (apply s e) r). rewrite IH. apply apply_avail.
+  change (run_gen keep rej s (e :: r)) with (run_gen keep rej (apply_gen keep rej s e) r). rewrite IH. apply apply_avail.
 Qed.
 
-Lemma Inv_run : forall evs s, Inv s -> quiet s evs -> Inv (run s evs).
+Lemma Inv_run : forall evs s, Inv s -> (keep || rej = true \/ quiet_gen keep rej s evs) -> Inv (run_gen keep rej s evs).
 Proof.
   induction evs as [|e r IH]; intros s HI Hq; [exact HI|].
-  change (run s (e :: r)) with (run (apply s e) r).
-  destruct Hq as [Hq1 Hq2]. apply (IH (apply s e)); [apply Inv_step; assumption|exact Hq2].
+  change (run_gen keep rej s (e :: r)) with (run_gen keep rej (apply_gen keep rej s e) r).
+  apply (IH (apply_gen keep rej s e)).
+  - apply Inv_step; [exact HI|]. destruct Hq as [Hq|[Hq1 Hq2]]; [left; exact Hq|right; exact Hq1].
+  - destruct Hq as [Hq|[Hq1 Hq2]]; [left; exact Hq|right; exact Hq2].
 Qed.
 
 Theorem resources_never_overcommitted_partial_proof :
   forall (s0 : sys) (evs : list event),
-    Inv s0 -> quiet s0 evs ->
-    forall r, (cmd_used r (db (run s0 evs)) <= availz (avail s0) r)%N.
+    Inv s0 -> (keep || rej = true \/ quiet_gen keep rej s0 evs) ->
+    forall r, (cmd_used r (db (run_gen keep rej s0 evs)) <= availz (avail s0) r)%N.
 Proof.
   intros s0 evs HI Hq r. destruct (Inv_run evs s0 HI Hq) as [_ [_ HR]].
   rewrite <- (run_avail evs s0). apply HR.
@@ -816,9 +900,9 @@ Proof.
     destruct (IH k g m Hg H) as [m' [H1 H2]]. exists m'. split; [right; exact H1|exact H2].
 Qed.
 
-Lemma U_step : forall s e, Uall (avail s) (db s) -> Uall (avail s) (db (apply s e)).
+Lemma U_step : forall s e, Uall (avail s) (db s) -> Uall (avail s) (db (apply_gen keep rej s e)).
 Proof.
-  intros s e HU. unfold apply. destruct (step s e) as [s'|] eqn:Es; [|exact HU].
+  intros s e HU. unfold apply_gen. destruct (step_gen keep rej s e) as [s'|] eqn:Es; [|exact HU].
   destruct e as [m|i|i|i k o|i c|p l g cl nd|i k|i k|i]; simpl in Es.
   - inversion Es; subst; clear Es. simpl. eapply Uall_ext; [|exact HU].
     apply setmeta_core. rewrite app_length, repeat_length. lia.
@@ -862,22 +946,20 @@ Proof.
     destruct (find_label l (db s)) as [i|] eqn:Ef.
     + destruct (nth_error (db s) i) as [x|] eqn:En; [|discriminate].
       destruct (attached x); [discriminate|]. destruct (Nat.eqb i p); [discriminate|].
+      destruct (rej && in_flight x); [discriminate|].
       destruct (outs_match (sig x) g).
       * unfold recycle_full in Es. destruct (lose_product (db s) x) as [d0|] eqn:El; [|discriminate].
         inversion Es; subst; clear Es. simpl.
         apply Forall_upd.
         -- eapply Uall_ext; [|exact HU]. rewrite set_attached_in_core.
            rewrite map_upd_ext; [eapply lose_product_core; exact El|intros; reflexivity].
-        -- intros y Hy HUy. apply (Urow_same _ y); [|exact HUy].
-           unfold recycle_zeroes_holding, recycle_failed_to_pending, recycle_replaces_claims. cbn [andb]. proj.
-           destruct (sstate_eqb (st y) Failed); proj; [|reflexivity].
-           destruct (set_state_tr_fields Pending (set_holding 0 y)) as [_ [_ [F3 _]]]. exact F3.
+        -- intros y Hy HUy. apply (Urow_same _ y); [apply full_row_cmds|exact HUy].
       * unfold recycle_partial in Es. destruct (lose_product (db s) x) as [d0|] eqn:El; [|discriminate].
         inversion Es; subst; clear Es. simpl.
         apply Forall_upd.
         -- eapply Uall_ext; [|exact HU]. rewrite detach_created_core.
            rewrite map_upd_ext; [eapply lose_product_core; exact El|intros; reflexivity].
-        -- intros y Hy HUy. apply (Urow_same _ y); [reflexivity|exact HUy].
+        -- intros y Hy HUy. apply (Urow_same _ y); [apply partial_row_cmds|exact HUy].
     + inversion Es; subst; clear Es. simpl. apply Forall_app. split; [exact HU|].
       constructor; [|constructor]. intros m Hm. contradiction.
   - destruct (nth_error (db s) i) as [x|] eqn:En; [|discriminate].
@@ -899,19 +981,19 @@ Qed.
 Theorem undefined_resource_never_runs_proof :
   forall (s0 : sys) (evs : list event),
     Uall (avail s0) (db s0) ->
-    forall x m e, In x (db (run s0 evs)) -> In m (cmds x) -> In e (held m) -> lookup (fst e) (avail s0) <> None.
+    forall x m e, In x (db (run_gen keep rej s0 evs)) -> In m (cmds x) -> In e (held m) -> lookup (fst e) (avail s0) <> None.
 Proof.
   intros s0 evs. revert s0. induction evs as [|ev r IH]; intros s0 HU x m e Hx Hm He.
   - unfold Uall in HU. rewrite Forall_forall in HU. exact (HU x Hx m Hm e He).
-  - change (run s0 (ev :: r)) with (run (apply s0 ev) r) in Hx.
-    rewrite <- (apply_avail s0 ev). apply (IH (apply s0 ev)) with (x := x) (m := m); try assumption.
+  - change (run_gen keep rej s0 (ev :: r)) with (run_gen keep rej (apply_gen keep rej s0 ev) r) in Hx.
+    rewrite <- (apply_avail s0 ev). apply (IH (apply_gen keep rej s0 ev)) with (x := x) (m := m); try assumption.
     rewrite apply_avail. apply U_step. exact HU.
 Qed.
 
 (* the dispatch decision itself: a step that requires an undefined resource is not moved to RUNNING *)
 Theorem undefined_blocks_dispatch :
   forall s i x e, nth_error (db s) i = Some x -> has_hash x = false -> In e (rclaims x) ->
-    lookup (fst e) (avail s) = None -> step s (EDispatch i) = None.
+    lookup (fst e) (avail s) = None -> step_gen keep rej s (EDispatch i) = None.
 Proof.
   intros s i x e En Eh He El. simpl. rewrite En.
   destruct (eligible_row s x) eqn:Ee; [|reflexivity]. exfalso.
@@ -982,7 +1064,7 @@ Qed.
 (* The dispatch decision: a step is moved to RUNNING only if every step ancestor is RUNNING or
    SUCCEEDED and has no open hold. Unconditional. *)
 Theorem dispatch_running_ancestors_ok :
-  forall s i x, nth_error (db s) i = Some x -> has_hash x = false -> step s (EDispatch i) <> None ->
+  forall s i x, nth_error (db s) i = Some x -> has_hash x = false -> step_gen keep rej s (EDispatch i) <> None ->
     st x = Pending /\ attached x = true /\
     forall a, anc (db s) i a ->
       exists ax, nth_error (db s) a = Some ax /\ holding ax = 0%N /\ (st ax = Running \/ st ax = Succeeded).
@@ -1003,7 +1085,7 @@ Qed.
 (* The hash-check bypass: with a stored hash the step may be dispatched under an open hold, but
    only to CHECKING, every ancestor is still RUNNING or SUCCEEDED, and no command is started. *)
 Theorem checking_runs_no_command :
-  forall s i x s', nth_error (db s) i = Some x -> has_hash x = true -> step s (EDispatch i) = Some s' ->
+  forall s i x s', nth_error (db s) i = Some x -> has_hash x = true -> step_gen keep rej s (EDispatch i) = Some s' ->
     map cmds (db s') = map cmds (db s) /\
     (exists y, nth_error (db s') i = Some y /\ st y = Checking) /\
     forall a, anc (db s) i a -> exists ax, nth_error (db s) a = Some ax /\ (st ax = Running \/ st ax = Succeeded).
@@ -1028,7 +1110,7 @@ Qed.
 
 (* a failed check drops the stored hash: from then on only the full guard can dispatch the step *)
 Theorem mismatch_drops_hash :
-  forall s i s', step s (ECheckDone i CMismatch) = Some s' ->
+  forall s i s', step_gen keep rej s (ECheckDone i CMismatch) = Some s' ->
     exists y, nth_error (db s') i = Some y /\ has_hash y = false /\ st y = Pending.
 Proof.
   intros s i s' Es. simpl in Es. destruct (nth_error (db s) i) as [x|] eqn:En; [|discriminate].
@@ -1042,9 +1124,9 @@ Qed.
 
 (* ghost level, for histories in which no executing step is recycled *)
 Theorem held_step_does_not_run_partial_proof :
-  forall (s0 : sys) (evs : list event), Inv s0 -> quiet s0 evs ->
-    let s := run s0 evs in
-    forall i x, nth_error (db s) i = Some x -> has_hash x = false -> step s (EDispatch i) <> None ->
+  forall (s0 : sys) (evs : list event), Inv s0 -> (keep || rej = true \/ quiet_gen keep rej s0 evs) ->
+    let s := run_gen keep rej s0 evs in
+    forall i x, nth_error (db s) i = Some x -> has_hash x = false -> step_gen keep rej s (EDispatch i) <> None ->
       forall a ax m, anc (db s) i a -> nth_error (db s) a = Some ax -> In m (cmds ax) -> depth m = 0%N.
 Proof.
   intros s0 evs HI Hq s i x En Eh Hacc a ax m Ha Ea Hm.
@@ -1058,33 +1140,33 @@ Qed.
 
 Theorem release_below_zero_rejected_proof :
   forall s i k x, nth_error (db s) i = Some x -> holding x = 0%N ->
-    step s (ERelease i k) = None /\ apply s (ERelease i k) = s.
+    step_gen keep rej s (ERelease i k) = None /\ apply_gen keep rej s (ERelease i k) = s.
 Proof.
   intros s i k x En Hh.
-  assert (E : step s (ERelease i k) = None).
+  assert (E : step_gen keep rej s (ERelease i k) = None).
   { simpl. rewrite En. destruct (nth_error (cmds x) k); [|reflexivity].
     destruct (release_guard (holding x)) eqn:Eg; [|reflexivity].
     apply release_guard_spec in Eg. contradiction. }
-  split; [exact E|]. unfold apply. rewrite E. reflexivity.
+  split; [exact E|]. unfold apply_gen. rewrite E. reflexivity.
 Qed.
 
 (* nested holds: the counter follows hold/release exactly *)
 Theorem hold_release_counter :
   forall s i k x m, nth_error (db s) i = Some x -> nth_error (cmds x) k = Some m ->
-    (exists y, nth_error (db (apply s (EHold i k))) i = Some y /\ holding y = (holding x + 1)%N) /\
+    (exists y, nth_error (db (apply_gen keep rej s (EHold i k))) i = Some y /\ holding y = (holding x + 1)%N) /\
     (holding x <> 0%N ->
-       exists y, nth_error (db (apply s (ERelease i k))) i = Some y /\ holding y = (holding x - 1)%N).
+       exists y, nth_error (db (apply_gen keep rej s (ERelease i k))) i = Some y /\ holding y = (holding x - 1)%N).
 Proof.
   intros s i k x m En Ek. split.
-  - unfold apply. simpl. rewrite En, Ek. simpl. eexists. split; [apply nth_error_upd_same; exact En|reflexivity].
-  - intro Hh. unfold apply. simpl. rewrite En, Ek. apply release_guard_spec in Hh. rewrite Hh. simpl.
+  - unfold apply_gen. simpl. rewrite En, Ek. simpl. eexists. split; [apply nth_error_upd_same; exact En|reflexivity].
+  - intro Hh. unfold apply_gen. simpl. rewrite En, Ek. apply release_guard_spec in Hh. rewrite Hh. simpl.
     eexists. split; [apply nth_error_upd_same; exact En|reflexivity].
 Qed.
 
 (* the trigger: any write of a state other than RUNNING zeroes the counter *)
 Theorem holding_reset_on_leaving_running_proof :
   (forall ns x, ns <> Running -> holding (set_state_tr ns x) = 0%N) /\
-  (forall s i k o s', step s (EComplete i k o) = Some s' ->
+  (forall s i k o s', step_gen keep rej s (EComplete i k o) = Some s' ->
      exists y, nth_error (db s') i = Some y /\ holding y = 0%N /\ st y = state_of_outcome o /\ st y <> Running).
 Proof.
   split; [exact set_state_tr_holding|].
@@ -1110,10 +1192,10 @@ Qed.
 Theorem failed_creator_blocks_children :
   forall s i x c cx, nth_error (db s) i = Some x -> has_hash x = false -> creator x = Some c ->
     nth_error (db s) c = Some cx -> (st cx = Failed \/ st cx = Pending \/ st cx = Checking) ->
-    step s (EDispatch i) = None.
+    step_gen keep rej s (EDispatch i) = None.
 Proof.
-  intros s i x c cx En Eh Ec Ecx Hst. destruct (step s (EDispatch i)) eqn:Es; [|reflexivity]. exfalso.
-  assert (Hacc : step s (EDispatch i) <> None) by congruence.
+  intros s i x c cx En Eh Ec Ecx Hst. destruct (step_gen keep rej s (EDispatch i)) eqn:Es; [|reflexivity]. exfalso.
+  assert (Hacc : step_gen keep rej s (EDispatch i) <> None) by congruence.
   destruct (dispatch_running_ancestors_ok s i x En Eh Hacc) as [_ [_ Hanc]].
   destruct (Hanc c (anc_parent _ _ _ _ En Ec)) as [ax [E1 [_ E3]]]. rewrite Ecx in E1. inversion E1; subst.
   destruct Hst as [H|[H|H]]; destruct E3 as [E3|E3]; congruence.
@@ -1131,14 +1213,16 @@ Proof.
 Qed.
 
 Theorem db_sum_within_availability_partial :
-  forall (s0 : sys) (evs : list event), Inv s0 -> quiet s0 evs ->
-    forall r, used r (db (run s0 evs)) = cmd_used r (db (run s0 evs)) /\
-              (used r (db (run s0 evs)) <= availz (avail s0) r)%N.
+  forall (s0 : sys) (evs : list event), Inv s0 -> (keep || rej = true \/ quiet_gen keep rej s0 evs) ->
+    forall r, used r (db (run_gen keep rej s0 evs)) = cmd_used r (db (run_gen keep rej s0 evs)) /\
+              (used r (db (run_gen keep rej s0 evs)) <= availz (avail s0) r)%N.
 Proof.
   intros s0 evs HI Hq r. destruct (Inv_run evs s0 HI Hq) as [HK [_ HR]].
   pose proof (used_eq_cmd_used r _ HK) as E.
   split; [exact E|]. rewrite E, <- (run_avail evs s0). apply HR.
 Qed.
+
+End Gen.
 
 (* ------------------------------------------------------------------------------------------ *)
 (* Witnesses: recycling a step whose command is executing breaks the full statements           *)
@@ -1191,13 +1275,13 @@ Definition witness_hold_zeroed : list event :=
 
 Theorem resources_full_refuted_claims_replaced :
   exists (s0 : sys) (evs : list event) (r : N),
-    Inv s0 /\ (availz (avail s0) r < cmd_used r (db (run s0 evs)))%N.
+    Inv s0 /\ (availz (avail s0) r < cmd_used r (db (run_gen false false s0 evs)))%N.
 Proof. exists sys0, witness_claims_replaced, 1%N. split; [exact sys0_inv|]. vm_compute. reflexivity. Qed.
 
 Theorem resources_full_refuted_row_reset :
   exists (s0 : sys) (evs : list event) (r : N),
-    Inv s0 /\ (availz (avail s0) r < cmd_used r (db (run s0 evs)))%N /\
-    exists x, nth_error (db (run s0 evs)) 2 = Some x /\ length (cmds x) = 2.
+    Inv s0 /\ (availz (avail s0) r < cmd_used r (db (run_gen false false s0 evs)))%N /\
+    exists x, nth_error (db (run_gen false false s0 evs)) 2 = Some x /\ length (cmds x) = 2.
 Proof.
   exists sys0, witness_row_reset, 1%N. split; [exact sys0_inv|]. split; [vm_compute; reflexivity|].
   eexists. split; vm_compute; reflexivity.
@@ -1205,11 +1289,70 @@ Qed.
 
 Theorem hold_full_refuted :
   exists (s0 : sys) (evs : list event) (i a : nat) (x ax : row) (m : cmd),
-    Inv s0 /\ let s := run s0 evs in
-    nth_error (db s) i = Some x /\ has_hash x = false /\ step s (EDispatch i) <> None /\
+    Inv s0 /\ let s := run_gen false false s0 evs in
+    nth_error (db s) i = Some x /\ has_hash x = false /\ step_gen false false s (EDispatch i) <> None /\
     creator x = Some a /\ nth_error (db s) a = Some ax /\ In m (cmds ax) /\ depth m = 1%N.
 Proof.
   exists sys0, witness_hold_zeroed, 3, 2. eexists. eexists. eexists. split; [exact sys0_inv|].
   cbv zeta. split; [vm_compute; reflexivity|]. split; [reflexivity|]. split; [vm_compute; discriminate|].
   split; [reflexivity|]. split; [vm_compute; reflexivity|]. split; [left; reflexivity|reflexivity].
 Qed.
+
+(* ------------------------------------------------------------------------------------------ *)
+(* The full statements, per shape of the recycle code                                          *)
+(* ------------------------------------------------------------------------------------------ *)
+
+Definition resources_full_at (keep rej : bool) : Prop :=
+  forall (s0 : sys) (evs : list event), Inv s0 ->
+    forall r, (cmd_used r (db (run_gen keep rej s0 evs)) <= availz (avail s0) r)%N.
+
+Definition hold_full_at (keep rej : bool) : Prop :=
+  forall (s0 : sys) (evs : list event), Inv s0 ->
+    let s := run_gen keep rej s0 evs in
+    forall i x, nth_error (db s) i = Some x -> has_hash x = false -> step_gen keep rej s (EDispatch i) <> None ->
+      forall a ax m, anc (db s) i a -> nth_error (db s) a = Some ax -> In m (cmds ax) -> depth m = 0%N.
+
+(* K + V + nothing over-committed is an invariant of EVERY history once the code has one of the two
+   repaired shapes *)
+Theorem inv_all_histories_of_repaired : forall keep rej, keep || rej = true ->
+  forall s0 evs, Inv s0 -> Inv (run_gen keep rej s0 evs).
+Proof. intros keep rej H s0 evs HI. apply Inv_run; [exact HI|left; exact H]. Qed.
+
+Theorem resources_full_of_repaired : forall keep rej, keep || rej = true -> resources_full_at keep rej.
+Proof.
+  intros keep rej H s0 evs HI r.
+  exact (resources_never_overcommitted_partial_proof keep rej s0 evs HI (or_introl H) r).
+Qed.
+
+Theorem hold_full_of_repaired : forall keep rej, keep || rej = true -> hold_full_at keep rej.
+Proof.
+  intros keep rej H s0 evs HI.
+  exact (held_step_does_not_run_partial_proof keep rej s0 evs HI (or_introl H)).
+Qed.
+
+Theorem resources_full_iff_repaired : forall keep rej, resources_full_at keep rej <-> keep || rej = true.
+Proof.
+  intros keep rej. split; [|apply resources_full_of_repaired].
+  destruct keep, rej; try reflexivity. intro H. exfalso.
+  destruct resources_full_refuted_claims_replaced as [s0 [evs [r [HI Hlt]]]].
+  specialize (H s0 evs HI r). lia.
+Qed.
+
+Theorem hold_full_iff_repaired : forall keep rej, hold_full_at keep rej <-> keep || rej = true.
+Proof.
+  intros keep rej. split; [|apply hold_full_of_repaired].
+  destruct keep, rej; try reflexivity. intro H. exfalso.
+  destruct hold_full_refuted as [s0 [evs [i [a [x [ax [m [HI Hw]]]]]]]]. cbv zeta in Hw.
+  destruct Hw as [En [Eh [Hacc [Ec [Ea [Hm Hd]]]]]].
+  pose proof (H s0 evs HI i x En Eh Hacc a ax m (anc_parent _ _ _ _ En Ec) Ea Hm) as H0.
+  rewrite H0 in Hd. discriminate.
+Qed.
+
+(* the same three histories under the repaired shapes: nothing is over-committed, the command of S
+   is not started a second time, the child declared under the open hold stays blocked *)
+Lemma witnesses_harmless_when_repaired :
+  forall keep rej, keep || rej = true ->
+    (cmd_used 1 (db (run_gen keep rej sys0 witness_claims_replaced)) <= 1)%N /\
+    (cmd_used 1 (db (run_gen keep rej sys0 witness_row_reset)) <= 1)%N /\
+    step_gen keep rej (run_gen keep rej sys0 witness_hold_zeroed) (EDispatch 3) = None.
+Proof. intros keep rej H. destruct keep, rej; try discriminate H; vm_compute; repeat split; discriminate. Qed.
